@@ -50,6 +50,9 @@ def inline_new_helpers(raw, vocabulary, strip_lt, log=None):
     for b in bodies:
         by_path.setdefault(strip_lt(b["path"]), b)
     voc = set(vocabulary)
+    tp = os.path.join(os.path.dirname(os.path.abspath(__file__)), "vocabulary_thin.json")
+    if os.path.exists(tp):
+        voc -= set(json.load(open(tp)))  # thin private accessors are spliced into their caller on every tree
 
     def eligible(p):
         b = by_path.get(p)
